@@ -42,6 +42,9 @@ func (c *collector) addPart(partIndex int, data []byte) error {
 	} else {
 		offset = len(data) * partIndex
 	}
+	if offset < 0 {
+		return errors.Errorf("part of len=%d does not fit in buf of len=%d", len(data), len(c.buf))
+	}
 	if offset >= len(c.buf) {
 		return errors.Errorf("invalid offset len=%d for buf of len=%d", offset, len(c.buf))
 	}
